@@ -15,6 +15,7 @@ ALSO = {  # further properties whose quick check is expected/observed to notice 
     "C01-lineline-multiaxis-meshgrid": ["C02"], "C07-inverse-rigid-fastpath": ["C06"], "C16-segment-contains-unnormalised": ["C03", "C18"],
     "C18-segment-contains-mixed-sign": ["C03", "C16"], "C09-polygon3d-drop-coordinate": ["C16"], "C03-rotation-axis-sign": [],
     "C04-normalize-any-all": [], "C12-perpendicular-inplace-view": [],
+    "C06b-inv-reciprocal-int-batch": ["C20"], "C02b-meshgrid-xy-indexing": ["C01"], "C12b-normalize-asarray-alias": ["C03"],
 }
 
 
